@@ -29,6 +29,7 @@ func verifGeoSubnet(bits int) netip.Prefix {
 //verif:harness name=H05c-partition tier=quick,thorough bounds="two consecutive IPv4 clients asking the same question; GeoIP subnets symbolic with a length from {12, 20, 24}; upstream scope of the first answer symbolic; second client plain, with an own ECS option, or opted out with /0; one-slot caches honouring the agdcache contract" reach=hit,miss,declined,scope-zero maxpaths=100000
 //verif:assume maphash without collisions between different streams (hosts compared separately); no expiry between the two requests; GeoIP stub
 func VerifC05Partition() {
+	verifPoolMode(1) // released pooled objects (cache requests, cloned messages) are handed back
 	noECS, ecs := &verifCache{}, &verifCache{}
 	mw := verifMW(noECS, ecs)
 	verifSetClock(1 << 40)
